@@ -25,6 +25,7 @@ type detCase struct {
 	Files []treeFile `json:"files"`
 	Cfg   treeCfg    `json:"cfg"`
 	Page  string     `json:"page"`
+	Datas [][]tpair  `json:"datas"` // kind "tree": data maps rendered one after the other on ONE loaded Template
 	Steps []string   `json:"steps"` // kind "seq": sources rendered one after the other in this process
 	ExpOk []bool     `json:"expok"` // kind "seq": does step k render (true) or fail (false), whatever ran before
 	Tags  []string   `json:"tags"`
@@ -82,11 +83,33 @@ func detOnce(c detCase) (sig string, err error) {
 		if lerr != nil {
 			return "LOADERR " + strings.ReplaceAll(lerr.Error(), root, "$ROOT"), nil
 		}
-		out, ferr := tpl.String(c.Page, nil)
-		if ferr != nil {
-			return "ERR " + strings.ReplaceAll(ferr.String(), root, "$ROOT"), nil
+		render := func(t *textwire.Template, d []tpair) string {
+			data, _ := goData(d)
+			out, ferr := t.String(c.Page, data)
+			if ferr != nil {
+				return "ERR " + strings.ReplaceAll(ferr.String(), root, "$ROOT")
+			}
+			return "OUT " + out
 		}
-		return "OUT " + out, nil
+		if len(c.Datas) == 0 {
+			return render(tpl, nil), nil
+		}
+		// the same files, data and configuration give the same result every time: each data map rendered after the
+		// others on one Template must give what it gives first on a freshly loaded one
+		var sigs []string
+		for i, d := range c.Datas {
+			got := render(tpl, d)
+			textwire.VerifReset()
+			fresh, lerr := textwire.NewTemplate(&config.Config{TemplateDir: c.Cfg.Dir, TemplateExt: c.Cfg.Ext})
+			if lerr != nil {
+				return "", lerr
+			}
+			if want := render(fresh, d); want != got {
+				return fmt.Sprintf("DIFFERS step %d: rendered after the other data maps the page gives %q; on a freshly loaded Template %q", i+1, got, want), nil
+			}
+			sigs = append(sigs, got)
+		}
+		return strings.Join(sigs, " ; "), nil
 	}
 	return "", fmt.Errorf("unknown kind %q", c.Kind)
 }
